@@ -1237,7 +1237,11 @@ def call_ndmethod(ev, mname, b, pos, kw, ctx, t):
     if b.meta is not None and isinstance(b.meta, tuple) and b.meta and b.meta[0] == 'interp1d':
         return AV(kind=ARR, deps=deps_of(*allv))
     if mname in ('conj', 'conjugate'):
-        return AV(kind=ARR, deps=b.deps, shape=b.shape, norm=b.norm, sign=b.sign, dtype=b.dtype, meta=('conj', b))
+        # the METHOD returns the array itself for a real dtype (np.conj, the ufunc, always allocates): unless the operand is known to be complex the result may be the
+        # operand - an in-place operation on it may write into the caller's array
+        known_complex = isinstance(b.dtype, str) and 'complex' in b.dtype
+        # (for a real-valued argument - an admissible input wherever a PSD / mask / real signal is taken - the alias is certain, so it is kept as such)
+        return AV(kind=ARR, deps=b.deps, alias=frozenset() if known_complex else b.alias, shape=b.shape, norm=b.norm, sign=b.sign, dtype=b.dtype, meta=('conj', b))
     if mname == 'copy':
         return AV(kind=b.kind if b.kind is not TOP else TOP, deps=b.deps, shape=b.shape, norm=b.norm, sign=b.sign, dtype=b.dtype, tup=b.tup, meta=('copy', 'ndarray.copy', b))
     if mname == 'astype':
